@@ -22,6 +22,7 @@ ASSUMPTIONS = ["names and operand vocabularies are @-free by construction, so an
 FAULTS = ["control", "control", "item", "operand", "deref-value", "key-times", "key-operands", "under-or", "under-not", "in-body-first", "in-body-last", "delete-def", "unpassed-file", "no-at-name", "alias-to-undefined", "shared-lib-second-rule", "in-name", "defined-but-applied-earlier", "cyclic", "in-name-next-to-defined", "in-name-next-to-defined"]
 FLOORS = {f"fault={f}": 0.03 for f in set(FAULTS)}
 FLOORS["library-rewritten-between-compilations"] = 0.01
+FLOORS["reference-beside-list-macro-invocation"] = 0.01
 UNDEF = ["@zz_", "@undefined_", "@nope_", "@64bit_", "@8_", "@2nd-op_", "@Q.x_"]  # also names that are not identifiers
 
 
@@ -218,6 +219,21 @@ def evaluate(case):
         if first[0] != "ok":
             ev.dev("valid-macro-rule-rejected", error=list(first[1:]))
             return ev
+    if fault == "control" and len(jasm_io.dump_yaml(case["factored"])) % 3 == 1:
+        # an undefined reference written beside the invocation of a list-bodied macro (an operand list under the macro key, a further
+        # key of the node): that part of the node never reaches the matcher, the reference must be reported all the same (F43)
+        ev.tags.append("reference-beside-list-macro-invocation")
+        which = len(str(case["factored"])) % 4
+        inv = [{"@ybeside_": ["@zz_undefined", "%eax"]}, {"@ybeside_": None, "zz": "@zz_undefined"}, {"@ybeside_": {"times": 1, "zz": ["@zz_undefined"]}}, {"@yother_": ["x"], "@ybeside_": ["@zz_undefined"]}][which]
+        lib = [{"name": "@ybeside_", "pattern": [{"$or": ["shl", "shr"]}]}, {"name": "@yother_", "pattern": [{"$or": ["rol", "ror"]}]}]
+        if len(str(case["factored"])) % 8 >= 4:
+            lib.reverse()
+        r2 = jasm_io.compile_rule(jasm_io.make_doc(["mov", inv], macros=lib))
+        ev.subcases = (ev.subcases or 0) + 1
+        if r2[0] == "ok":
+            ev.dev("unresolved-reference-compiled-silently", fault="reference-beside-list-macro-invocation", invocation=inv, macros=lib, regex=r2[1][:300])
+        elif r2[0] == "exc" and "@zz_undefined" not in r2[2]:
+            ev.dev("error-does-not-name-the-reference", fault="reference-beside-list-macro-invocation", expected="@zz_undefined", error=list(r2[1:]))
     if fault == "control" and len(jasm_io.dump_yaml(case["factored"])) % 3 == 0:
         # The same rule text compiled twice with the same macro-file PATH, the file rewritten in between so that a reference loses
         # its definition: the second compilation must report it (through MasterOfPuppets and through Yaml2Regex).
